@@ -12,6 +12,9 @@ open LuaHelper.Lex LuaHelper.Ast
 structure Rep where
   ty : Nat
   loc : Loc
+  /-- what else tells two diagnostics of the same type and range apart (their message): the key string of
+      a duplicate-key report — two different integer keys are both reported at the constructor -/
+  tag : Bytes := []
 deriving Repr, DecidableEq, Inhabited
 
 /-- `GetExpLoc` -/
@@ -23,14 +26,55 @@ def expLoc : Exp → Loc
 
 def isInitialLoc (l : Loc) : Bool := l.sl == 0 && l.sc == 0 && l.el == 0 && l.ec == 0
 
+/-! float literals are compared through their value: a decimal numeral `ddd[.ddd][e[±]ddd]` denotes the
+rational num / den (exactly — the rounding of `strconv.ParseFloat` to a float64 is not modelled, so numerals
+with more than 15 significant digits are outside the tie); any other numeral text (hex floats) is compared
+as text -/
+
+def isDigit (b : UInt8) : Bool := 48 ≤ b && b ≤ 57
+
+/-- the value of a run of decimal digits, continuing from `acc` -/
+def digitsVal (acc : Nat) : Bytes → Nat
+  | [] => acc
+  | b :: r => digitsVal (acc * 10 + (b.toNat - 48)) r
+
+/-- (numerator, denominator) of a decimal float numeral; none for every other text -/
+def fltVal (t : Bytes) : Option (Nat × Nat) :=
+  let ip := t.takeWhile isDigit
+  let r1 := t.dropWhile isDigit
+  let (fp, r2) := match r1 with
+    | 46 :: r => (r.takeWhile isDigit, r.dropWhile isDigit)
+    | _ => ([], r1)
+  if ip.isEmpty && fp.isEmpty then none else
+  let m := digitsVal 0 (ip ++ fp)
+  match r2 with
+  | [] => some (m, 10 ^ fp.length)
+  | e :: r3 =>
+    if e == 101 || e == 69 then
+      let (neg, ds) := match r3 with
+        | 45 :: r => (true, r)
+        | 43 :: r => (false, r)
+        | _ => (false, r3)
+      if ds.isEmpty || !ds.all isDigit then none
+      else
+        let x := digitsVal 0 ds
+        if neg then some (m, 10 ^ (fp.length + x)) else some (m * 10 ^ x, 10 ^ fp.length)
+    else none
+
+/-- equal values (exact), or equal text when a value is not available -/
+def fltEq (a b : Bytes) : Bool :=
+  match fltVal a, fltVal b with
+  | some (n1, d1), some (n2, d2) => n1 * d2 == n2 * d1
+  | _, _ => a == b
+
 mutual
-/-- `CompExp` (floats: equal numeral text stands for |a − b| < 1e-6) -/
+/-- `CompExp` -/
 def compExp : Exp → Exp → Bool
   | .nil _, .nil _ => true
   | .fls _, .fls _ => true
   | .tru _, .tru _ => true
   | .int a _, .int b _ => a == b
-  | .flt a _, .flt b _ => a == b
+  | .flt a _, .flt b _ => fltEq a b
   | .str a _, .str b _ => a == b
   | .parens a _, .parens b _ => compExp a b
   | .vararg _, .vararg _ => true
@@ -52,36 +96,48 @@ def compExps : List Exp → List Exp → Bool
   | _, _ => false
 end
 
-def hashPrefix (s : String) : Bytes := bytesOfString s
+/-- "#" followed by the tag: the placeholder names of `GetExpName` -/
+def hashTag (s : String) : Bytes := 35 :: bytesOfString s
 
 /-- `GetExpName` (with GetTableAccessName: prefix "." key) -/
 def expName : Exp → Bytes
-  | .nil _ => hashPrefix "#nil" | .fls _ => hashPrefix "#flase" | .tru _ => hashPrefix "#true"
-  | .int _ _ => hashPrefix "#int" | .flt _ _ => hashPrefix "#float"
+  | .nil _ => hashTag "nil" | .fls _ => hashTag "flase" | .tru _ => hashTag "true"
+  | .int _ _ => hashTag "int" | .flt _ _ => hashTag "float"
   | .str s _ => s
   | .parens e _ => expName e
-  | .vararg _ => hashPrefix "#vararg"
+  | .vararg _ => hashTag "vararg"
   | .name n _ => 33 :: n
-  | .func _ => hashPrefix "#errror"
-  | .table _ _ _ => hashPrefix "#table"
-  | .unop _ _ _ => hashPrefix "#astUnopExp"
-  | .binop _ _ _ _ => hashPrefix "#astBinopExp"
+  | .func _ => hashTag "errror"
+  | .table _ _ _ => hashTag "table"
+  | .unop _ _ _ => hashTag "astUnopExp"
+  | .binop _ _ _ _ => hashTag "astBinopExp"
   | .index p k _ => expName p ++ [46] ++ expName k
-  | .call _ _ _ _ => hashPrefix "#funcall"
-  | _ => hashPrefix "#other"
+  | .call _ _ _ _ => hashTag "funcall"
+  | _ => hashTag "other"
 
 /-- `IsOneValueType` -/
 def isOneValue : Exp → Bool
   | .name _ _ | .str _ _ | .flt _ _ | .int _ _ | .fls _ | .tru _ | .nil _ => true
   | _ => false
 
-def intStr (v : Int) : Bytes := bytesOfString (toString v)
+/-- decimal digits of a natural number (`strconv.FormatInt` for a non-negative value) -/
+def natBytes (n : Nat) : Bytes :=
+  if n < 10 then [UInt8.ofNat (48 + n)] else natBytes (n / 10) ++ [UInt8.ofNat (48 + n % 10)]
 
-/-- `GetTableConstuctorKeyStr`: (key string, location reported) or none -/
+/-- `strconv.FormatInt(v, 10)` -/
+def intStr : Int → Bytes
+  | .ofNat n => natBytes n
+  | .negSucc n => 45 :: natBytes (n + 1)
+
+/-- the bytes of "#int" -/
+def intKeyPrefix : Bytes := [35, 105, 110, 116]
+
+/-- `GetTableConstuctorKeyStr`: (key string, location reported) or none.  The three kinds of key live in
+three disjoint name spaces: "#int" + decimal digits, '"' + the string, "!" + the name. -/
 def keyStr (k : Exp) (parent : Loc) : Option (Bytes × Loc) :=
   match k with
-  | .int v _ => some (hashPrefix "#int" ++ intStr v, parent)
-  | .str s l => if s.isEmpty then none else some (s, l)
+  | .int v _ => some (intKeyPrefix ++ intStr v, parent)
+  | .str s l => some (34 :: s, l)
   | .name n l => some (33 :: n, l)
   | _ => none
 
@@ -92,7 +148,7 @@ def dupKeys (keys : List Exp) (parent : Loc) : List Rep :=
     | k :: r, seen, acc =>
       match keyStr k parent with
       | none => go r seen acc
-      | some (s, l) => if seen.contains s then go r seen ({ ty := 5, loc := l } :: acc) else go r (s :: seen) acc
+      | some (s, l) => if seen.contains s then go r seen ({ ty := 5, loc := l, tag := s } :: acc) else go r (s :: seen) acc
   go keys [] []
 
 /-- type 13: for i < j, parameter j (not "_") equal to parameter i → reported at j (once per pair) -/
@@ -122,8 +178,18 @@ def r16 (op : TK) (a b : Exp) : List Rep :=
   if op == .and && (isFalse a || isFalse b) && located a b then [{ ty := 16, loc := spanLoc a b }] else []
 def r21 (op : TK) (a b : Exp) (l : Loc) : List Rep :=
   if (op == .eq || op == .ne) && (isFloat a || isFloat b) then [{ ty := 21, loc := l }] else []
+/-- `isSameOperand`: the structural comparison that confirms equal names; redundant parentheses are
+ignored at every level of a table access, everything else is left to `CompExp` -/
+def sameOperand : Exp → Exp → Bool
+  | .parens a _, b => sameOperand a b
+  | a, .parens b _ => sameOperand a b
+  | .index p1 k1 _, .index p2 k2 _ => sameOperand p1 p2 && sameOperand k1 k2
+  | a, b => compExp a b
+termination_by a b => sizeOf a + sizeOf b
+
 def r14 (op : TK) (a b : Exp) : List Rep :=
-  if isCmp op && !containsHash (expName a) && !containsHash (expName b) && expName a == expName b && located a b
+  if isCmp op && !containsHash (expName a) && !containsHash (expName b) && expName a == expName b &&
+     sameOperand a b && located a b
   then [{ ty := 14, loc := spanLoc a b }] else []
 
 /-- the reports of `cgBinopExp` for one node, in the Go order: 15/16, 21, 14 -/
@@ -177,7 +243,7 @@ def pStat : Stat → List Rep
   | .do_ b _ => pBlock b
   | .while_ c b _ => pExp c ++ pBlock b
   | .repeat_ b c _ => pBlock b ++ pExp c
-  | .if_ cs bs _ => dupIfs cs ++ cs.flatMap pExp ++ bs.flatMap pBlock
+  | .if_ cs bs els _ => dupIfs (if els then cs.dropLast else cs) ++ cs.flatMap pExp ++ bs.flatMap pBlock
   | .fornum _ _ i l s b _ => pExp i ++ pExp l ++ pExp s ++ pBlock b
   | .forin _ es b _ => es.flatMap pExp ++ pBlock b
   | .assign vs es l =>
